@@ -1,7 +1,7 @@
 #include <stdlib.h>
 #include "stubs/alloc_model.h"
 
-size_t g_malloc_calls, g_realloc_calls, g_free_calls, g_last_req;
+size_t g_malloc_calls, g_realloc_calls, g_free_calls, g_last_req, g_live;
 bool g_refused, g_alloc_forbidden;
 bool nondet_bool(void);
 
@@ -15,6 +15,7 @@ void *v_malloc(size_t n) {
   }
   void *p = malloc(n);
   __CPROVER_assume(p != NULL);
+  g_live++;
   return p;
 }
 
@@ -30,12 +31,14 @@ void *v_realloc(void *p, size_t n) {
    * fresh block, copies the common prefix, frees the old block */
   void *q = realloc(p, n);
   __CPROVER_assume(q != NULL);
+  if (p == NULL) g_live++;
   return q;
 }
 
 void v_free(void *p) {
   __CPROVER_assert(!g_alloc_forbidden, "C13: this operation must release no memory (free)");
   g_free_calls++;
+  if (p != NULL) g_live--;
   /* CBMC's free model carries the obligations: NULL or live dynamic object, offset 0, not freed twice */
   free(p);
 }
